@@ -6,5 +6,5 @@ for d in seeded/S-*; do
   [ $(( i % $2 )) -eq $(( $1 % $2 )) ] || continue
   id=$(basename $d)
   prop=$(/venv/bin/python -c "import json;print(json.load(open('$d/meta.json'))['property'])")
-  SEED_SCRATCH=1 /venv/bin/python harness/seedtest.py $d $id $prop 2>&1 | tail -1
+  SEED_SCRATCH=1 SEED_RECHECK=1 /venv/bin/python harness/seedtest.py $d $id $prop 2>&1 | tail -1
 done
